@@ -356,40 +356,56 @@ def rule_use(ctx) -> None:
 ACCEPTED_EXT = (".json", ".jsonl", ".meta", ".zst")
 
 
-def rule_name(ctx) -> None:
+def tmp_name_rule(ctx, rule: str) -> int:
+    """Temp names vs. the acceptance predicates (shared by C08.NAME and C06.DISC)."""
     mk = ctx.prog.funcs.get(f"{ATOMIC}:_make_tmp")
     holders = [mk] if mk else _writer_fn(ctx)
     found = 0
     for fn in holders:
+        dst_params = set(fn.params)
         for n, c in find_calls(ctx, fn, lambda c, nm: (dotted(c.func) or "") in ("tempfile.NamedTemporaryFile", "tempfile.mkstemp")):
             found += 1
             suf = kwarg(c, "suffix")
             key = f"{fn.qual}/tmp-suffix"
             if suf is None:
-                ctx.holds("C08.NAME", key, fn.loc(c),
+                ctx.holds(rule, key, fn.loc(c),
                           "no suffix: temp names end in tempfile's random [a-z0-9_]{8}, which contains no '.', so they "
                           f"cannot end with any accepted extension {ACCEPTED_EXT}")
             else:
-                s = const_str(suf)
+                inl_s = ctx.rd(fn).inline(suf, n)
+                s = const_str(inl_s)
                 if s is None:
-                    ctx.undecided("C08.NAME", key, fn.loc(c), f"non-constant suffix {src(suf)}")
+                    # a suffix computed from the destination path (final.suffix, final.name[...], os.path.splitext(final)[1])
+                    # ends with the destination's own extension whenever that is '.json'/'.jsonl'/'.meta'
+                    from_dst = any(isinstance(x, ast.Name) and x.id in dst_params for x in ast.walk(inl_s))
+                    if from_dst:
+                        ctx.violation(rule, key, fn.loc(c),
+                                      f"temp suffix `{src(suf)}` is derived from the destination path: the temp file carries the destination's "
+                                      f"extension, so a leftover temp of 'x.json' satisfies endswith('.json') in snapshot discovery / log readers")
+                    else:
+                        ctx.undecided(rule, key, fn.loc(c), f"non-constant suffix {src(suf)}")
                 else:
                     okk = not any(s.endswith(e) for e in ACCEPTED_EXT) and not s.lstrip(".").isdigit()
-                    ctx.check(okk, "C08.NAME", key, fn.loc(c), f"suffix {s!r} is not an accepted extension",
+                    ctx.check(okk, rule, key, fn.loc(c), f"suffix {s!r} is not an accepted extension",
                               f"temp suffix {s!r} ends with an extension that snapshot discovery / log readers accept")
             pre = kwarg(c, "prefix")
             keyp = f"{fn.qual}/tmp-prefix"
             if pre is None:
-                ctx.violation("C08.NAME", keyp, fn.loc(c), "temp name has no prefix tying it to the destination name")
+                ctx.violation(rule, keyp, fn.loc(c), "temp name has no prefix tying it to the destination name")
             else:
                 inl = ctx.rd(fn).inline(pre, n)
                 ends_dot = isinstance(inl, ast.BinOp) and isinstance(inl.op, ast.Add) and const_str(inl.right) is not None and const_str(inl.right).endswith(".")
                 if isinstance(inl, ast.JoinedStr) and inl.values and isinstance(inl.values[-1], ast.Constant):
                     ends_dot = str(inl.values[-1].value).endswith(".")
-                ctx.check(ends_dot, "C08.NAME", keyp, fn.loc(c),
+                ctx.check(ends_dot, rule, keyp, fn.loc(c),
                           "prefix is '<destination name>.' so the temp name is '<name>.<random>' (never equal to a real artefact name)",
                           f"temp prefix {src(pre)} does not end with a '.' separator after the destination name")
-    ctx.floor("C08.NAME", "temp creation sites", found, 1)
+    ctx.floor(rule, "temp creation sites", found, 1)
+    return found
+
+
+def rule_name(ctx) -> None:
+    tmp_name_rule(ctx, "C08.NAME")
     # the acceptance predicate of discovery (shared with C06.DISC)
     fn = ctx.func("clematis.engine.snapshot:_pick_latest_snapshot_path")
     _discovery_filter(ctx, fn, "C08.NAME")
